@@ -248,6 +248,8 @@ func (a *w3Analysis) finalChecks(files []*w3File, written map[int64]*w3Written) 
 		var end float64
 		firstVideoSync, haveVideo := true, false
 		seenVideo := false
+		// (recorded time, published time) of the first and of the last sample of every track
+		firstOf, lastOf := map[int][2]int64{}, map[int][2]int64{}
 		for _, p := range f.parts {
 			span := map[int][2]int64{}
 			maxDur := map[int]int64{}
@@ -277,6 +279,11 @@ func (a *w3Analysis) finalChecks(files []*w3File, written map[int64]*w3Written) 
 				}
 				if w := written[s.id]; w == nil {
 					a.violate("C27", "unknown-sample", "segment %s holds a sample (id %d) that was never published", f.name, s.id)
+				} else {
+					if _, ok := firstOf[s.track]; !ok {
+						firstOf[s.track] = [2]int64{s.dts, w.PTS}
+					}
+					lastOf[s.track] = [2]int64{s.dts, w.PTS}
 				}
 			}
 			// what a crash can lose is bounded by one part: no part spans more than
@@ -287,6 +294,26 @@ func (a *w3Analysis) finalChecks(files []*w3File, written map[int64]*w3Written) 
 				if d > time.Duration(b.PartMs)*time.Millisecond+2*time.Millisecond {
 					a.violate("C27", "part-too-long", "segment %s: a part spans %s of track %d without its longest sample, partDuration is %dms", f.name, d, tid, b.PartMs)
 				}
+			}
+		}
+		// the recorded timeline is the published one: between the first and the last sample of
+		// a track the segment spans what the publisher's timestamps span (no B-frames here:
+		// decoding time = presentation time; the recorder may clamp one tick, not more)
+		tids := make([]int, 0, len(firstOf))
+		for tid := range firstOf {
+			tids = append(tids, tid)
+		}
+		sort.Ints(tids)
+		for _, tid := range tids {
+			tr := f.init.track(tid)
+			clock := 90000.0
+			if !tr.video && b.AudioCodec == "" {
+				clock = 8000
+			}
+			rec := float64(lastOf[tid][0]-firstOf[tid][0]) / float64(tr.timescale)
+			pub := float64(lastOf[tid][1]-firstOf[tid][1]) / clock
+			if rec < pub-0.0021 || rec > pub+0.0021 {
+				a.violate("C27", "timeline-wrong", "segment %s, track %d: %.3fs between its first and last sample, the publisher's timestamps of these two samples are %.3fs apart", f.name, tid, rec, pub)
 			}
 		}
 		if f.init.mvhdScale == 0 {
